@@ -14,6 +14,7 @@ import (
 	"encoding/json"
 	"fmt"
 	"math/rand"
+	"os"
 	"runtime"
 	"sort"
 	"strings"
@@ -485,6 +486,15 @@ func runServerScenario(t *testing.T, sc *srvScenario, pickFn func(n int) int, sk
 				r.releaseGate(g)
 			}
 			synctest.Wait()
+			select {
+			case st := <-statusCh:
+				r.Status = &st
+			default:
+				// goroutines of the server are blocked for good: the bubble cannot end. Report now.
+				if stuckHandler != nil {
+					stuckHandler(r)
+				}
+			}
 		}
 		synctest.Wait()
 		r.drainOut()
@@ -502,6 +512,19 @@ func statusText(st jrpc2.ServerStatus) string {
 		return "err:" + st.Err.Error()
 	}
 	return fmt.Sprintf("invalid(%+v)", st)
+}
+
+// stuckHandler is called when a server cannot be shut down (some goroutine is blocked for good);
+// it records the violation, writes the result file and ends the process, because the synctest
+// bubble can no longer terminate.
+var stuckHandler func(r *srvRun)
+
+func installStuckHandler(t *testing.T, res *Result, what string) {
+	stuckHandler = func(r *srvRun) {
+		res.Violatef(what, r.replayInput(r.sc), "the server did not shut down: a goroutine is blocked for good; log: %s", shortLog(r.Log))
+		res.Write(t)
+		os.Exit(0)
+	}
 }
 
 // rngPick returns a pickFn drawing from rng.
